@@ -855,11 +855,34 @@ class EventGenerator:
         Yields:
             An iterator of sax events.
         """
-        if collections.is_array(value):
+        if collections.is_array(value) and not self.is_tokens_choice(value, var):
             for val in value:
                 yield from self.convert_choice(val, var, namespace)
         else:
             yield from self.convert_choice(value, var, namespace)
+
+    def is_tokens_choice(self, value: Any, var: XmlVar) -> bool:
+        """Return whether the array is the tokens value of a single choice.
+
+        A compound field that is not a list holds one value, if that's
+        a flat array it can only be the tokens of one of the choices.
+
+        Args:
+            value: An array value
+            var: The compound field metadata instance
+
+        Returns:
+            The bool result.
+        """
+        return (
+            not var.list_element
+            and len(value) > 0
+            and not any(
+                collections.is_array(val) or self.context.class_type.is_model(val)
+                for val in value
+            )
+            and var.find_primitive_choice(value, True) is not None
+        )
 
     def convert_choice(
         self, value: Any, var: XmlVar, namespace: str | None
